@@ -174,3 +174,40 @@ Proof.
 Qed.
 Lemma digit_cases d : is_digit d = true -> In d [48; 49; 50; 51; 52; 53; 54; 55; 56; 57].
 Proof. unfold is_digit. intro H. cbn. lia. Qed.
+
+(* ================================================================ no configuration shuffles with seed 0 *)
+Ltac inv_step H :=
+  repeat match type of H with
+         | context [let (_, _) := ?x in _] => destruct x
+         | context [match ?x with _ => _ end] => destruct x eqn:?
+         | context [if ?x then _ else _] => destruct x eqn:?
+         end;
+  try discriminate H; inversion H; subst.
+Lemma action_seed tm c k lit a nx c' u : seed_ok c = true -> action tm c k lit a nx = HOk c' u -> seed_ok c' = true.
+Proof.
+  intros I H. unfold action in H.
+  repeat (match type of H with (if key ?p ?q ?r ?s then _ else _) = _ => destruct (key p q r s) end;
+    [ solve [ discriminate H
+            | (inversion H; subst; exact I)
+            | (unfold set_repeat_count, add_filter, add_group_dot_name, add_verbose_test, set_output_type, set_package_name, set_shuffle in H; cbv beta zeta in H;
+               inv_step H;
+               solve [ exact I
+                     | (unfold seed_ok; cbn [c_shuf c_seed set_seed set_shuf negb orb]; reflexivity)
+                     | (unfold seed_ok; cbn [c_shuf c_seed set_seed set_shuf negb orb];
+                        apply negb_true_iff; assumption) ]) ] |]).
+  discriminate H.
+Qed.
+Lemma handle_seed tm c a nx c' u : seed_ok c = true -> handle tm c a nx = HOk c' u -> seed_ok c' = true.
+Proof. unfold handle. destruct (first_match c12_dispatch a) as [[k lit]|]; [apply action_seed | discriminate]. Qed.
+Lemma parse_args_seed_n n : forall tm c args r, (length args <= n)%nat -> seed_ok c = true -> parse_args tm c args = Accept r -> seed_ok r = true.
+Proof.
+  induction n as [|n IH]; intros tm c args r L I P.
+  - destruct args; [inversion P; subst; exact I | cbn in L; lia].
+  - destruct args as [|a rest]; [inversion P; subst; exact I|]. cbn [parse_args] in P. cbn in L.
+    destruct (handle tm c a (hd_error rest)) as [h|c' u|] eqn:E; try discriminate P.
+    pose proof (handle_seed _ _ _ _ _ _ I E) as I'. destruct u.
+    + destruct rest as [|b rest']; [inversion P; subst; exact I'|]. apply (IH tm c' rest' r); [cbn in L; lia | exact I' | exact P].
+    + apply (IH tm c' rest r); [lia | exact I' | exact P].
+Qed.
+Lemma parse_seed tm argv c : parse tm argv = Accept c -> seed_ok c = true.
+Proof. unfold parse. apply (parse_args_seed_n (length (tl argv))); [lia | reflexivity]. Qed.
